@@ -86,6 +86,29 @@ theorem optimize_error_in_source (cc : CharClass) (hnl : cc.isSpace '\n' = true)
     fl fns w root l
     (Node.allLoc_mono (fun _ h => Or.inl h) root (node_locations_in_source cc hnl pcfg src toks root hl hp)) hopt
 
+/-- **`optimize_keeps_locations_exact`**: when the in-array and in-range rewrites did not fire (`hrun`: switching them
+    off with the guard `g` does not change what `Optimize` returns), every node of the optimised tree is at the location
+    of a node of the tree given — no 0:0 escape: folding, constant ranges and `ConstExpr` results replace a node by a
+    literal or constant that takes over its location.  Together with the witness below: the fresh inner nodes of the
+    two membership rewrites are the only unlocated nodes the optimizer makes. -/
+theorem optimize_keeps_locations_exact (P : Loc → Prop) (g : Guard) (hA : ∀ N, g .inArray N = false)
+    (hR : ∀ N, g .inRange N = false) (fl : Flags) (fns : ConstFns) (w : World) (n n' : Node) (hn : n.AllLoc P)
+    (hrun : optimizeWith g fl fns w n = optimize fl fns w n) (h : optimize fl fns w n = .ok n') : n'.AllLoc P := by
+  have := OptProofs.optimizeWith_allLoc_exact (P := P) g hA hR fl fns w n hn
+  rw [hrun, h] at this
+  exact this
+
+/-- non-vacuity: `1 + 2 * 3` at 1:0 … 1:8 folds to one literal at the location of the `+` (1:2), with a predicate that
+    0:0 does not satisfy, and switching the membership rewrites off changes nothing -/
+example :
+    let w : World := { call := fun _ _ => .ok .nil, regexMatch := fun _ _ => none, pow := fun a _ => a }
+    let g : Guard := fun p _ => p != .inArray && p != .inRange
+    let n : Node := .binary ⟨⟨1, 2⟩, .invalid⟩ "+" (.int ⟨⟨1, 0⟩, .invalid⟩ 1)
+      (.binary ⟨⟨1, 6⟩, .invalid⟩ "*" (.int ⟨⟨1, 4⟩, .invalid⟩ 2) (.int ⟨⟨1, 8⟩, .invalid⟩ 3))
+    optimizeWith g Flags.asIs [] w n = optimize Flags.asIs [] w n ∧
+    optimize Flags.asIs [] w n = .ok (.int ⟨⟨1, 2⟩, .invalid⟩ 7) ∧ ¬ (({} : Loc).line = 1) :=
+  ⟨rfl, rfl, by decide⟩
+
 /-- the statement without the 0:0 escape -/
 def optimize_keeps_locations_goal : Prop :=
   ∀ (P : Loc → Prop) (fl : Flags) (fns : ConstFns) (w : World) (n n' : Node),
